@@ -6,6 +6,13 @@ ROOT = os.path.dirname(os.path.dirname(os.path.abspath(__file__)))
 
 # id -> (category, technique, level text, level note, design ref)
 CHECKS = {
+ "C16": ("exploration",
+   "bounded-exhaustive packet-sequence enumeration + proptest sequences against idle/busy application states; crash/quiescence/responsiveness oracle",
+   "Every sequence of length <=3 (quick) / <=4 (thorough) over 26-30 well-formed packet templates per version, after and instead of the handshake, against an idle application and one with "
+   "outstanding QoS1/QoS2/subscribe/unsubscribe sends (shorter sequences against a held QoS 2 receipt and gated inbound handlers), plus random sequences of 4..12 packets, all four roles. "
+   "No panic in any task (application futures polled by the driver), settle reaches a fixed point, the connection is ended (<=1 Stop) or answers a probe, input consumed, task finishes after peer close, pending sends resolve.",
+   "Trusted: as C03; 'hang' is judged at deterministic quiescence of the in-memory bed (no timers involved).",
+   "DESIGN.md section 3 C16"),
  "C11": ("exploration",
    "model-based stateful testing (reserved-id model) with bounded-exhaustive short histories + proptest histories",
    "Every history of 3 (quick) / 4 (thorough) packet ops over {PUBLISH QoS1/2, SUBSCRIBE, UNSUBSCRIBE, PUBREL} x ids {1,2} x gate placements, plus random histories over ids {1,2,3}, executed against "
